@@ -247,6 +247,39 @@ def check_scoping(run: common.Run, node: Tuple, env: Dict[str, Tuple[str, Any]],
     run.sample({"src": src, "outer": {k: v[1] for k, v in env.items() if k in ("x", "y")}}, bucket="scope")
 
 
+# --- macro variable vs package-qualified binding: which one wins is not determined by the statement (both of its rules apply);
+#     what must hold is that both runner classes resolve it the same way ---------------------------------------
+
+PKG_MACRO_EXPRS = ["[1, 2].map(x, x)", "[1, 2].exists(x, x == 100)", "l.map(x, x + 1)", "l.filter(x, x > 1)", "l.map(y, x)", "[[1]].map(x, x.map(x, x))", "l.all(x, l.exists(y, y == x))",
+                   "[1, 2].map(v, v)", "l.exists_one(x, x == 2)", "x", "[x].map(x, x)"]
+PKG_MACRO_BINDINGS: List[Dict[str, Any]] = [
+    {"p.x": 100, "l": [1, 2]}, {"p.x": 100, "x": 5, "l": [1, 2]}, {"x": 5, "l": [1, 2]}, {"p.q.x": 7, "p.x": 100, "l": [2]}, {"p.y": 3, "x": 5, "l": [1, 2, 3]},
+    {"p.v": 9, "l": []}, {"p.l": [7, 8], "l": [1, 2], "x": 0}, {"p.q.l": [5], "p.x": 1, "l": [1]},
+]
+
+
+def check_package_macro(run: common.Run, package: Optional[str], bi: int, ei: int, report) -> None:
+    binds = {k: to_cel_any(v) for k, v in PKG_MACRO_BINDINGS[bi].items()}
+    expr = PKG_MACRO_EXPRS[ei]
+    run.tick()
+    oi = cel.evaluate(expr, binds, "I", package=package)
+    oc = cel.evaluate(expr, binds, "C", package=package)
+    if package and any(k.startswith(package.split(".")[0] + ".") for k in PKG_MACRO_BINDINGS[bi]):
+        run.nt(("pkg-macro", package, bi, ei))
+        run.event("package-macro-collision")
+    vi = ("value", oi[2]) if oi[0] == "value" else oi
+    vc = ("value", oc[2]) if oc[0] == "value" else oc
+    if vi != vc:
+        report("package-macro-runners-disagree", {"pkg_macro": True, "package": package, "bind": bi, "expr": ei, "src": expr, "bindings": PKG_MACRO_BINDINGS[bi]},
+               f"package={package} {expr} with {PKG_MACRO_BINDINGS[bi]}: interpreter {str(vi)[:100]} compiled {str(vc)[:100]}")
+
+
+def to_cel_any(v: Any) -> Any:
+    if isinstance(v, list):
+        return ct.ListType([to_cel_any(x) for x in v])
+    return to_cel(v)
+
+
 FIXED_SCOPING = [
     "[1, 2].map(x, x + y) + [x]", "[[1], [2]].map(x, x.map(x, x + 1))", "[[1], [2]].map(x, x.map(y, y + 1)) == [[2], [3]] && x == 5",
     "li.exists(x, li.all(y, x <= y)) || x == 5", "[x].map(x, x * 2)[0] + x", "[1].map(y, x) + [2].map(x, y)", "li.filter(x, x > y).map(y, y + x)",
@@ -262,7 +295,9 @@ def _node(x):
 def replay(run: common.Run, case: dict, key: str = ""):
     problems = []
     rep = lambda k, c, d: problems.append((k, d))
-    if "ref" in case:
+    if case.get("pkg_macro"):
+        check_package_macro(run, case["package"], case["bind"], case["expr"], rep)
+    elif "ref" in case:
         check_resolution(run, case["bindings"], case["package"], case["ref"], case["annotate"], rep)
     else:
         check_scoping(run, _node(case["node"]), {k: (v[0], v[1]) for k, v in case["env"].items()}, rep)
@@ -307,6 +342,10 @@ def main(run: common.Run) -> None:
         if node is None:
             raise common.HarnessError(f"fixed scoping program does not parse: {src}")
         check_scoping(run, _lit_node(node), env, run.fail)
+    for package in (None, "p", "p.q"):
+        for bi in range(len(PKG_MACRO_BINDINGS)):
+            for ei in range(len(PKG_MACRO_EXPRS)):
+                check_package_macro(run, package, bi, ei, run.fail)
     if run.tier == "quick":
         campaign(run)
     else:
